@@ -424,6 +424,31 @@ fn mesh(spec: &MeshSpec, t: &Iso3D, qs: &[Query]) -> Verdict {
         let hi = m1.vertices().iter().map(|p| p[k]).fold(f64::NEG_INFINITY, f64::max);
         ensure!((bb.mins[k] - lo).abs() <= tol && (bb.maxs[k] - hi).abs() <= tol, "C03/mesh/aabb_stale", "AABB axis {k} is [{:e},{:e}] but the transformed vertices span [{lo:e},{hi:e}]", bb.mins[k], bb.maxs[k]);
     }
+    // assembling commutes with T: two halves of the mesh (each with its own copy of the seam vertices), built with the
+    // merge-duplicates option, joined and then moved — or moved and then joined in the moved frame — are the same mesh
+    if soup.f.len() >= 4 {
+        let half = soup.f.len() / 2;
+        let compact = |faces: &[[u32; 3]], verts: &[Point3]| -> (Vec<Point3>, Vec<[u32; 3]>) {
+            let mut map: std::collections::BTreeMap<u32, u32> = std::collections::BTreeMap::new();
+            let mut v2 = vec![];
+            let f2 = faces.iter().map(|t| { let mut o = [0u32; 3]; for k in 0..3 { o[k] = *map.entry(t[k]).or_insert_with(|| { v2.push(verts[t[k] as usize]); (v2.len() - 1) as u32 }); } o }).collect();
+            (v2, f2)
+        };
+        let (va, fa) = compact(&soup.f[..half], &soup.v);
+        let (vb, fb) = compact(&soup.f[half..], &soup.v);
+        let build = |v: Vec<Point3>, f: Vec<[u32; 3]>| engeom::Mesh::new_with_options(v, f, false, true, false, None);
+        if let (Ok(mut r), Ok(rb), Ok(mut x), Ok(y)) = (build(va.clone(), fa.clone()), build(vb.clone(), fb.clone()), build(va, fa), build(vb.iter().map(|p| iso * p).collect(), fb)) {
+            if r.append(&rb).is_ok() {
+                r.transform(&iso);
+                x.transform(&iso);
+                if x.append(&y).is_ok() {
+                    cx.label("assemble_commutes");
+                    ensure!(x.vertices().len() == r.vertices().len() && x.faces().len() == r.faces().len(), "C03/mesh/assemble_then_move_vs_move_then_assemble", "joined-then-moved has {} vertices / {} faces, moved-then-joined has {} / {} (merge-duplicates option set on every part)", r.vertices().len(), r.faces().len(), x.vertices().len(), x.faces().len());
+                    ensure!(x.get_patches().len() == r.get_patches().len(), "C03/mesh/assemble_patches", "joined-then-moved has {} patches, moved-then-joined {}", r.get_patches().len(), x.get_patches().len());
+                }
+            }
+        }
+    }
     let tsoup = crate::oracle::Soup { v: m1.vertices().to_vec(), f: soup.f.clone() };
     for qs in qs {
         let q = qs.resolve(&bm);
